@@ -105,8 +105,9 @@ CHECKS = {
                      "compiler sees declared in the headers must be exported; every IDL constant must be a member of COMMON XRAYLIB (and every member assigned); a parameter that "
                      "carries the name of a C parameter must stand at its position; Pascal imports must bind the symbol their identifier names; Pascal wrapper bodies, Fortran call "
                      "sites of BIND(C) interfaces and Cython def bodies must forward to their own C function with their own arguments in order; every struct member converted in a SWIG "
-                     "out-typemap (Lua, Python, Perl, Ruby, PHP) must use a constructor of its C type.",
-                note="Non-C bindings are lexed, never compiled (no Fortran/Pascal/Cython/SWIG/IDL toolchain here); struct layouts and reshaped object wrappers are not compared."),
+                     "out-typemap (Lua, Python, Perl, Ruby, PHP) must use a constructor of its C type; Fortran BIND(C) types and Pascal records list the members of the C structs in the "
+                     "same order with the same kind of type (17 layouts).",
+                note="Non-C bindings are lexed, never compiled (no Fortran/Pascal/Cython/SWIG/IDL toolchain here); reshaped object wrappers (allocatable / dynamic-array copies) are not compared field by field."),
     "C14": dict(level="model_checking", engine="HIST", ref="4/C14",
                 technique="explicit-state BFS over operation histories of the real crystal-collection code (fork per state), to closure, against a dictionary model, repeated under ASan/UBSan",
                 text="States are observable collection contents (through the public list/lookup API) reached by replaying an operation history on the real library "
@@ -168,7 +169,9 @@ CHECKS = {
                      "all schedules with at most 2 (thorough 3) preemptions over contested accesses, libc seams, op boundaries and library function entries are "
                      "enumerated; every completed schedule must reproduce the serial results. The first schedule is replayed for determinism. In addition to the 30 "
                      "hand-written ops every value-returning entry point is run against itself (two threads, two different succeeding / failing tuples from the C03 "
-                     "product; ~900 generated ops over ~300 functions), so a static scratch variable or memo inside any function is a contested location.",
+                     "product; ~900 generated ops over ~300 functions), so a static scratch variable or memo inside any function is a contested location. Beyond the op alphabet, the "
+                     "complete C03 argument product of every entry point (2.9e7 calls per configuration) is run against the section-renamed build: no tuple may write to the library's "
+                     "static storage or tables (shared between threads whatever the schedule).",
                 note="Sequential consistency (DRF-SC argument); memcpy/memset intrinsics and libc internals are not instrumented - the free-running 16-thread TSan "
                      "pass (sampled, cross-check only) covers those; more than 3 threads only there; threads of that pass that never finish (180 s for a 0.1 s run) are reported as a hang."),
     "C18": dict(level="exploration", engine="ENUM", ref="4/C18",
